@@ -250,11 +250,16 @@ def body_run(scn):
     return dict(violations=v, labels=labs, nontrivial=nt, oracle_evals=evals, sample=dict(runlevel.small(scn), ncalls=len(tr.calls)))
 
 
+ADV_EXCLUDE = ()
+
+
 def plan(tier):
-    return [("enum", 16), ("real", 8), ("runs", 16)]
+    return [("enum", 16), ("real", 8), ("runs", 16), ("advopts", 16)]
 
 
 def run_part(res, part, tier, seed, shard, nshards):
+    if part == "advopts":
+        return runlevel.adv_sweep(res, PROFILE, tier, seed, shard, nshards, body_run, exclude=ADV_EXCLUDE)
     if part == "enum":
         run_enum(res, tier, shard, nshards)
     elif part == "real":
@@ -266,7 +271,7 @@ def run_part(res, part, tier, seed, shard, nshards):
 
 
 def minimise(part, tier, sig, case, seed):
-    if part == "runs":
+    if part in ("runs", "advopts"):
         return runlevel.field_minimise(case, sig, body_run, max_runs=12 if tier == "quick" else 40)
     if part == "real":
         m = engine.hyp_minimise(real_cases(), lambda c: any(engine.signature(x) == sig for x in body_real(c)["violations"]), 2000, seed)
@@ -275,7 +280,7 @@ def minimise(part, tier, sig, case, seed):
 
 
 def replay(part, case):
-    if part == "runs":
+    if part in ("runs", "advopts"):
         return runlevel.replay_body(body_run, case)
     if part == "real":
         return body_real(case)["violations"]
